@@ -43,6 +43,12 @@ type aWsum struct {
 	a, b aVal
 	bits int
 }
+
+// aCapMinus is (2^bits - 1) - x: the room left before a w-bit counter wraps.
+type aCapMinus struct {
+	x    aVal
+	bits int
+}
 type aTuple []aVal
 type aCell struct{ v aVal }
 
@@ -81,6 +87,8 @@ func aShow(v aVal) string {
 		return aShow(x.dyn)
 	case aWsum:
 		return "wsum(" + aShow(x.a) + "," + aShow(x.b) + ")"
+	case aCapMinus:
+		return "(cap - " + aShow(x.x) + ")"
 	case aTuple:
 		var p []string
 		for _, e := range x {
@@ -272,7 +280,39 @@ func (fr *aFrame) binop(x *ssa.BinOp) aVal {
 				return aConst{constant.BinaryOp(ka.v, token.ADD, kb.v), ka.t}
 			}
 		}
+	case token.SUB:
+		// capacity - x (the pre-check form of a saturating sum)
+		if bits := intBits(x.Type()); bits > 0 {
+			if ka, ok := a.(aConst); ok && ka.v != nil && ka.v.Kind() == constant.Int {
+				capV := constant.BinaryOp(constant.Shift(constant.MakeInt64(1), token.SHL, uint(bits)), token.SUB, constant.MakeInt64(1))
+				if _, isConst := b.(aConst); !isConst && constant.Compare(ka.v, token.EQL, capV) {
+					return aCapMinus{b, bits}
+				}
+			}
+		}
 	case token.EQL, token.NEQ, token.LSS, token.LEQ, token.GTR, token.GEQ:
+		// the second theorem of w-bit unsigned arithmetic:
+		//   cap - a < b  <=>  a + b > cap  <=>  the w-bit sum wraps
+		if cm, ok := a.(aCapMinus); ok {
+			if _, isConst := b.(aConst); !isConst && aShow(cm.x) != aShow(b) {
+				switch x.Op {
+				case token.LSS:
+					return aBool(e.atom("WRAPPED"))
+				case token.GEQ:
+					return aBool(!e.atom("WRAPPED"))
+				}
+			}
+		}
+		if cm, ok := b.(aCapMinus); ok {
+			if _, isConst := a.(aConst); !isConst && aShow(cm.x) != aShow(a) {
+				switch x.Op {
+				case token.GTR:
+					return aBool(e.atom("WRAPPED"))
+				case token.LEQ:
+					return aBool(!e.atom("WRAPPED"))
+				}
+			}
+		}
 		if ia, ok := a.(aIface); ok {
 			if ib, ok := b.(aIface); ok && ib.dyn == nil {
 				isNil := ia.dyn == nil
